@@ -155,6 +155,7 @@ func runC13(c *Ctx) {
 	c.c13Formats()
 	c.c13MemberLists()
 	c.c13WholePayload()
+	c.c13NoReacquire()
 }
 
 // c13Formats: "delivered intact". A message that travels through the format-string position of a printf-like
@@ -730,4 +731,131 @@ func (c *Ctx) c13WholePayload() {
 				"a part of the payload is taken at "+bad+": one message becomes several writes to the sink — each piece is a message of its own for the ring buffer (dropped and counted separately) and other goroutines' messages land between the pieces")
 		}
 	}
+}
+
+// c13NoReacquire (L10): "every message is delivered" needs the logger to stay alive. sync.RWMutex is not reentrant: a
+// goroutine that holds the read lock and asks for it again blocks for ever as soon as a writer has queued up in between
+// (and a second Lock on a held mutex blocks at once). No function of the logging packages calls, while it holds a mutex of
+// its receiver, a method that acquires the same mutex.
+func (c *Ctx) c13NoReacquire() {
+	c.rule("L10", "no method is called on the receiver (or one of its embedded parts) while a mutex is held that the method acquires itself: sync mutexes are not reentrant and a queued writer turns a nested read lock into a deadlock", 10)
+	memo := map[*ssa.Function]map[string]bool{}
+	var acq func(g *ssa.Function, depth int) map[string]bool
+	acq = func(g *ssa.Function, depth int) map[string]bool {
+		if m, ok := memo[g]; ok {
+			return m
+		}
+		out := map[string]bool{}
+		memo[g] = out
+		if depth > 6 || len(g.Blocks) == 0 || g.Signature.Recv() == nil || len(g.Params) == 0 {
+			return out
+		}
+		recv := g.Params[0]
+		allInstrs(g, func(in ssa.Instruction) {
+			cc := callCommon(in)
+			if cc == nil {
+				return
+			}
+			if _, isGo := in.(*ssa.Go); isGo {
+				return
+			}
+			if _, op, ok := mutexOp(cc); ok {
+				if op == "Lock" || op == "RLock" {
+					if root, path := c13RootAndPath(cc.Args[0]); root == ssa.Value(recv) {
+						out[path] = true
+					}
+				}
+				return
+			}
+			h := staticCallee(cc)
+			if h == nil || h.Signature.Recv() == nil || len(cc.Args) == 0 {
+				return
+			}
+			root, path := c13RootAndPath(cc.Args[0])
+			if root != ssa.Value(recv) {
+				return
+			}
+			for k := range acq(h, depth+1) {
+				out[c13Join(path, k)] = true
+			}
+		})
+		return out
+	}
+	n := 0
+	for _, rel := range c13Pkgs {
+		for _, f := range c.srcFuncs(rel) {
+			if f.Signature.Recv() == nil || len(f.Params) == 0 || len(f.Blocks) == 0 {
+				continue
+			}
+			var ls *lockset
+			allInstrs(f, func(in ssa.Instruction) {
+				cl, ok := in.(*ssa.Call)
+				if !ok {
+					return
+				}
+				if _, _, isM := mutexOp(&cl.Call); isM {
+					return
+				}
+				h := staticCallee(&cl.Call)
+				if h == nil || h.Signature.Recv() == nil || len(cl.Call.Args) == 0 {
+					return
+				}
+				root, path := c13RootAndPath(cl.Call.Args[0])
+				if root != ssa.Value(f.Params[0]) {
+					return
+				}
+				keys := acq(h, 0)
+				if len(keys) == 0 {
+					return
+				}
+				if ls == nil {
+					ls = computeLockset(f)
+				}
+				n++
+				bad := ""
+				for k := range keys {
+					full := c13Join(path, k)
+					if st := ls.at(cl, full); st != lockNone {
+						bad = "calls " + h.Name() + "(), which acquires " + full + ", while " + full + " is held (" + st.String() + "): the mutex is not reentrant — with a writer waiting in between (or for a plain Lock, at once) the goroutine blocks for ever and every later message of this logger is lost"
+					}
+				}
+				c.check(bad == "", "L10", fname(f)+"/calls:"+h.Name(), c.ipos(cl), "callee's mutex not held at the call", bad)
+			})
+		}
+	}
+	c.Extra["calls_of_locking_methods"] = n
+}
+
+// c13RootAndPath: v is the address of (a field of a field of …) root; the path names the fields.
+func c13RootAndPath(v ssa.Value) (ssa.Value, string) {
+	var parts []string
+	for {
+		switch x := v.(type) {
+		case *ssa.FieldAddr:
+			if st := structOf(x.X.Type()); st != nil {
+				parts = append([]string{st.Field(x.Field).Name()}, parts...)
+			}
+			v = x.X
+			continue
+		case *ssa.UnOp:
+			if x.Op == token.MUL {
+				if fa, ok := x.X.(*ssa.FieldAddr); ok { // pointer field: the object it designates is named by the field
+					v = fa
+					continue
+				}
+			}
+		}
+		break
+	}
+	return v, strings.Join(parts, ".")
+}
+
+func c13Join(a, b string) string {
+	if a == "" {
+		return b
+	}
+	if b == "" {
+		return a
+	}
+	return a + "." + b
 }
